@@ -739,7 +739,20 @@ main(int argc, char **argv)
 			if (nng_aio_alloc(&op->aio, op_cb, op) != 0) {
 				return 3;
 			}
-			nng_aio_set_timeout(op->aio, NNG_DURATION_INFINITE);
+			{
+				// send <op> <conn> <side> <tag> <nh> <shape> <shared> [tmo] | recv <op> <conn> <side> [tmo]
+				int tmo = 0;
+				if (op->issend) {
+					char *q = line;
+					for (int f = 0; f < 8 && q != NULL; f++) {
+						q = strchr(q + 1, ' ');
+					}
+					tmo = q != NULL ? atoi(q) : 0;
+				} else {
+					tmo = atoi(a4);
+				}
+				nng_aio_set_timeout(op->aio, tmo > 0 ? tmo : NNG_DURATION_INFINITE);
+			}
 			if (op->issend) {
 				op->orig = mk_msg((uint32_t) atoi(a4), atoi(a5), a6[0]);
 				if (atoi(a7)) {
